@@ -16,6 +16,7 @@ import Kvass.Proofs.LoopStep
 import Kvass.Proofs.LoopRecover
 import Kvass.Proofs.LoopSettle
 import Kvass.Proofs.LoopSettle2
+import Kvass.Proofs.LoopPlace
 
 namespace Kvass.Props.C06
 open Kvass Kvass.Coord Kvass.Spec
@@ -306,6 +307,31 @@ theorem C06_repairs_all_in_one_cycle (swr : Swr) (env : Loop.Env) (w : Loop.Worl
         (∀ h v, (Loop.statusOf sh').get h = some v → v.state = .normal) :=
   Loop.loop_settles2 swr env w sc r
 
+/-- **none stays unscraped** (closed-loop step): all running sidecars answer and more shards are
+    allowed; then after one fault-free `Loop.step` a discovered, healthy, not too big target of non-zero
+    size is reported by a running sidecar — or the StatefulSet has grown (C03's scale-up clause, carried
+    through the delivered requests and the resize).  For every schedule that visits every discovered
+    target.  The zero-size case is the known finding `unscraped-zero-size`. -/
+theorem C06_step_placed_or_grows (swr : Swr) (env : Loop.Env) (w : Loop.World) (sc : Sched)
+    (hrep : w.replicas ≤ w.shards.length)
+    (hnc : (cycle swr sc (Loop.inputOf env w [] false)).crashed = false)
+    (hnd : ∀ sh ∈ w.running, (Loop.statusOf sh).keys.Nodup)
+    (hidle : ∀ sh ∈ w.running, Sidecar.IdleInv sh.sc)
+    (hmax : (w.replicas : Int) < env.opt.maxShard)
+    (hmp : 0 < env.opt.maxProc) (hmh : 0 ≤ env.opt.maxHead)
+    (hnn : ∀ k, 0 ≤ (globalOf (infos0 (Loop.inputOf env w [] false)) w.explore k).series ∧
+      0 ≤ (globalOf (infos0 (Loop.inputOf env w [] false)) w.explore k).total)
+    (hfull : ∀ k ∈ w.active, k ∈ sc.assign)
+    {h : Hash} (ha : h ∈ w.active)
+    (hskip : Gen.assignSkip (globalOf (infos0 (Loop.inputOf env w [] false)) w.explore h) = false)
+    (hbig : Gen.tooBig env.opt (globalOf (infos0 (Loop.inputOf env w [] false)) w.explore h) = false)
+    (hsz : 0 < (globalOf (infos0 (Loop.inputOf env w [] false)) w.explore h).series +
+      (globalOf (infos0 (Loop.inputOf env w [] false)) w.explore h).total) :
+    w.replicas < (Loop.step swr env w (.cycle sc [] false)).replicas ∨
+    ∃ (d : Nat) (shd : Loop.Shard), d < (Loop.step swr env w (.cycle sc [] false)).replicas ∧
+      (Loop.step swr env w (.cycle sc [] false)).shards[d]? = some shd ∧ (Loop.statusOf shd).has h = true :=
+  Loop.step_placed_or_grows swr env w sc hrep hnc hnd hidle hmax hmp hmh hnn hfull ha hskip hbig hsz
+
 /-- a cycle in which nothing has to move is exactly `gcTargets` (what the recovery theorem rests on) -/
 theorem C06_calm_cycle_is_gc (swr : Swr) (sc : Sched) (inp : Input) (q : Calm swr inp) :
     (cycle swr sc inp).crashed = false ∧
@@ -405,6 +431,21 @@ def exDup : Loop.World :=
 /-- … is resolved by one step: with equal loads the later shard gives the target up -/
 example : ((Loop.step (fun x r => x * r / 10) exEnv exDup (.cycle {} [] false)).shards.map
       fun sh => (Loop.statusOf sh).map fun p => (p.1, p.2.state)) = [[(1, .normal)], []] := by
+  decide
+
+/-- an unscraped target that fits nowhere: shard 0 holds target 1 (90 of 100 head series), target 2
+    (30 series, healthy) is discovered and unscraped -/
+def exFull : Loop.World :=
+  { shards := [⟨{ targets := [⟨1, 90, 90, .normal, 1⟩], status := [(1, { health := .good, series := 90, total := 90, state := .normal, times := 5 })],
+                   idleAt := none }, 7⟩],
+    replicas := 1, active := [1, 2], explore := [(2, ⟨.good, 30, 30, .normal, 0⟩)] }
+def exEnvLim : Loop.Env := { opt := ⟨100, 1000, 5, 1, false, true⟩, maxIdle := 3, promHead := 0 }
+
+/-- … the step asks for a second shard, and the next step places the target there -/
+example : (Loop.step (fun x r => x * r / 10) exEnvLim exFull (.cycle { assign := [1, 2] } [] false)).replicas = 2 ∧
+    ((Loop.run (fun x r => x * r / 10) exEnvLim exFull
+        [.cycle { assign := [1, 2] } [] false, .cycle { assign := [1, 2] } [] false]).shards.map
+      fun sh => (Loop.statusOf sh).map fun p => (p.1, p.2.state)) = [[(1, .normal)], [(2, .normal)]] := by
   decide
 
 /-- the pending hand-over meets the hypotheses of `C06_settles_in_one_cycle` -/
